@@ -76,6 +76,7 @@ KIND_MAP = [
     ("precondition not satisfied", "call-precondition"),
     ("invariant not satisfied before loop", "invariant-init"),
     ("invariant not satisfied at end of loop body", "invariant-step"),
+    ("loop invariant not satisfied", "invariant-continue"),
     ("assertion failed", "assert"),
     ("possible arithmetic underflow/overflow", "arith-overflow"),
     ("possible division by zero", "div-zero"),
@@ -140,7 +141,7 @@ def classify(res, g):
             # a failing Verus `assert` is a proof step written in the overlay (run-time assert!s are vassert call
             # preconditions), so it is not a panic obligation
             grp = "safety"
-            if kind in ("assert", "ensures", "invariant-init", "invariant-step", "decreases") or \
+            if kind in ("assert", "ensures", "invariant-init", "invariant-step", "invariant-continue", "decreases") or \
                     (kind == "call-precondition" and re.match(r"(lemma|axiom)_", hl)):
                 grp = "proof"
             label = "%s/%s.%s[%s]" % (fn, grp, kind, re.sub(r"\s+", " ", hl)[:80])
